@@ -5,8 +5,12 @@
 package wlsql
 
 import (
+	"encoding/json"
 	"fmt"
+	"io"
 	"os"
+
+	"github.com/formancehq/ledger/internal/verif/minisql"
 
 	"github.com/formancehq/go-libs/v5/pkg/storage/bun/paginate"
 )
@@ -18,8 +22,38 @@ func Main(cmd string, args []string) int {
 	switch cmd {
 	case "capture":
 		return captureMain(args)
+	case "parse":
+		return parseMain(args)
+	case "schema":
+		return schemaMain(args)
+	case "smoke":
+		return smokeMain(args)
 	default:
 		fmt.Fprintf(os.Stderr, "vrsql: unknown command %q\n", cmd)
 		return 2
 	}
+}
+
+// parseMain: SQL on stdin -> JSON AST and Lean term on stdout (debug aid).
+func parseMain(args []string) int {
+	src, _ := io.ReadAll(os.Stdin)
+	parts, err := minisql.SplitStatements(string(src))
+	if err != nil {
+		fmt.Fprintln(os.Stderr, err)
+		return 1
+	}
+	rc := 0
+	for _, p := range parts {
+		st, err := minisql.Parse(p)
+		if err != nil {
+			fmt.Fprintln(os.Stderr, err)
+			rc = 1
+			continue
+		}
+		b, _ := json.Marshal(st.JSON())
+		fmt.Println(string(b))
+		fmt.Println(st.Lean())
+		fmt.Println(minisql.PrintSQL(st.Root))
+	}
+	return rc
 }
